@@ -193,6 +193,35 @@ def interpSliceLens (nx ny : Nat) : Nat × Nat := (sliceLen 1 (-1) ny, sliceLen 
 def fillSkipsCall (nx nb : Nat) (left right : Int) : List Int × Nat × Nat :=
   ([left, right - 1], sliceLen left right nx, sliceLen left right nb)
 
+/-! ### the other caller of `_interp_inplace`: `classification._averaged_interp` / `_find_peak_segments` -/
+
+/-- `_find_peak_segments(mask)` before the in-place adjustments, read left to right:
+`peak_starts = flatnonzero(ext[1:-1] < ext[:-2])`, `peak_ends = flatnonzero(ext[1:-1] < ext[2:])` for
+`ext = [True] + mask + [True]`; `prevT` is the entry before (True at the left edge), `off` the position -/
+def peakSegs (prevT : Bool) (off : Nat) : List Bool → List Nat × List Nat
+  | [] => ([], [])
+  | m :: rest =>
+    let r := peakSegs m (off + 1) rest
+    (if !m && prevT then off :: r.1 else r.1, if !m && rest.headD true then off :: r.2 else r.2)
+
+/-- `if len(peak_starts): peak_starts[1 if peak_starts[0] == 0 else 0:] -= 1` -/
+def adjStarts : List Nat → List Int
+  | [] => []
+  | s0 :: t => if s0 = 0 then (0 : Int) :: t.map (fun (p : Nat) => (p : Int) - 1) else (s0 :: t).map (fun (p : Nat) => (p : Int) - 1)
+
+/-- `if len(peak_ends): peak_ends[:-1 if peak_ends[-1] == mask.shape[0] - 1 else None] += 1` -/
+def adjEnds (N : Nat) (E : List Nat) : List Int :=
+  match E.getLast? with
+  | none => []
+  | some last =>
+    if (last : Int) = (N : Int) - 1 then E.dropLast.map (fun (e : Nat) => (e : Int) + 1) ++ [(last : Int)]
+    else E.map (fun (e : Nat) => (e : Int) + 1)
+
+/-- the `(start, end)` pairs `_averaged_interp` loops over (`zip(peak_starts, peak_ends)`); each gives the call
+`_interp_inplace(x[start:end + 1], output[start:end + 1], …)` -/
+def averagedInterpCalls (mask : List Bool) : List (Int × Int) :=
+  (adjStarts (peakSegs true 0 mask).1).zip (adjEnds mask.length (peakSegs true 0 mask).2)
+
 /-! ### `_loess_solver` (polynomial.py) and the three loess loop kernels -/
 
 /-- `np.linalg.solve(AT.dot(AT.T), AT.dot(b))` for `AT : m × w`, `b : wb`: `AT.dot(AT.T)` is `m × m` for every
